@@ -911,7 +911,7 @@ Definition intended_call (o : op) (k : kind) (fd : N) : posix_call :=
   | OWake ring_fd => PMsgRing (FdNum (Z.of_N ring_fd)) 0 WAKE_USER_DATA
   end.
 
-(** * Argument domains (what the Rust types admit) *)
+(** * Argument domains (what the Rust types allow) *)
 Definition u16 (n : N) : Prop := n < two16.
 Definition u31 (n : N) : Prop := n < two31.
 Definition u32 (n : N) : Prop := n < two32.
